@@ -74,7 +74,7 @@ Record platform (E P : Type) := {
   is_equal : E -> P -> bool;       (* Commenter.IsEqual(dst, existing, pending) *)
   can_create : nat -> bool;        (* Commenter.CanCreate(created so far) *)
   can_delete : E -> bool;          (* Commenter.CanDelete(existing) *)
-  create : P -> option E           (* Commenter.Create: what the store receives; None = silently skipped *)
+  create : P -> option E           (* Commenter.Create: what the store receives; None = errCommentSkipped (cannot be placed) *)
 }.
 Arguments is_equal {E P}. Arguments can_create {E P}. Arguments can_delete {E P}. Arguments create {E P}.
 
@@ -90,7 +90,9 @@ Section Step.
 
   Definition covered_by (store : list E) (p : P) : bool := existsb (fun e => is_equal pf e p) store.
 
-  (** first loop: [existing] is the snapshot returned by List; it is NOT extended by the comments just created *)
+  (** first loop: [existing] is the snapshot returned by List; it is NOT extended by the comments just created.
+      [created] counts the comments actually placed: since fix 15e1a20 a Create that returns errCommentSkipped
+      (the platform cannot place the comment: path outside the pull request) jumps to NEXTCreate WITHOUT created++ *)
   Fixpoint create_phase (existing : list E) (pend : list P) (created : nat) : list (P * option E) * list P :=
     match pend with
     | [] => ([], [])
@@ -99,7 +101,23 @@ Section Step.
         else if negb (can_create pf created) then
           let '(c, d) := create_phase existing r created in (c, p :: d)
         else
-          let '(c, d) := create_phase existing r (S created) in ((p, create pf p) :: c, d)
+          match create pf p with
+          | None => let '(c, d) := create_phase existing r created in ((p, None) :: c, d)
+          | Some e => let '(c, d) := create_phase existing r (S created) in ((p, Some e) :: c, d)
+          end
+    end.
+
+  (** historical variant (before fix 15e1a20): a skipped comment was counted like a placed one.  Kept only for
+      the refutation theorem C17_counting_skips_starves_refuted in Properties/C17.v. *)
+  Fixpoint create_phase_prefix (existing : list E) (pend : list P) (created : nat) : list (P * option E) * list P :=
+    match pend with
+    | [] => ([], [])
+    | p :: r =>
+        if covered_by existing p then create_phase_prefix existing r created
+        else if negb (can_create pf created) then
+          let '(c, d) := create_phase_prefix existing r created in (c, p :: d)
+        else
+          let '(c, d) := create_phase_prefix existing r (S created) in ((p, create pf p) :: c, d)
     end.
 
   (** second loop: an existing comment is deleted iff it equals no pending one and the platform allows it *)
@@ -123,4 +141,22 @@ Section Step.
 
   Definition uncovered (store : list E) (pend : list P) : list P :=
     filter (fun p => negb (covered_by store p)) pend.
+
+  (** a pending comment the platform can place at all *)
+  Definition placeable (p : P) : bool := match create pf p with Some _ => true | None => false end.
+
+  (** pending comments that are not covered yet and that the platform can place: what is left to do *)
+  Definition todo (store : list E) (pend : list P) : list P :=
+    filter (fun p => negb (covered_by store p) && placeable p) pend.
+
+  Definition step_prefix (store : list E) (pend : list P) : list E * log E P :=
+    let '(c, d) := create_phase_prefix store pend 0 in
+    ((filter (fun e => negb (stale pend e)) store ++ stored c)%list,
+     {| l_created := c; l_deferred := d; l_deleted := filter (stale pend) store |}).
+
+  Fixpoint run_n_prefix (n : nat) (store : list E) (pend : list P) : list E :=
+    match n with
+    | O => store
+    | S k => run_n_prefix k (fst (step_prefix store pend)) pend
+    end.
 End Step.
